@@ -144,6 +144,8 @@ type Sim struct {
 	Probes     map[string]int
 	dirGen     map[string]int
 	Closers    []func()
+	// Ext holds per-simulation state of other sim packages (simchan's wait queues).
+	Ext map[string]any
 }
 
 var active atomic.Pointer[Sim]
@@ -173,7 +175,7 @@ func New(cfg Config) *Sim {
 	if cfg.PCTEst == 0 {
 		cfg.PCTEst = 300
 	}
-	return &Sim{Cfg: cfg, objIDs: map[any]int{}, FaultsHit: map[string]int{}, Probes: map[string]int{}, dirGen: map[string]int{}, traceHash: 0xcbf29ce484222325}
+	return &Sim{Cfg: cfg, objIDs: map[any]int{}, FaultsHit: map[string]int{}, Probes: map[string]int{}, dirGen: map[string]int{}, Ext: map[string]any{}, traceHash: 0xcbf29ce484222325}
 }
 
 // Run executes root as the first simulated goroutine and returns when every simulated
